@@ -26,8 +26,9 @@ VARIABLES tid,     \* index of the trace this behaviour validates
           T,       \* live known-finding taints
           prevO,   \* observation after the last non-fork line
           rej,     \* some earlier call of this trace raised
-          fails    \* {<<line, clause, status>>} with status # "ok"
-vars == <<tid, l, R, T, prevO, rej, fails>>
+          fails,   \* {<<line, clause, status>>} with status # "ok"
+          brs      \* {<<branch, result kind>>} of the single add_interaction calls (coverage of the model's disjuncts)
+vars == <<tid, l, R, T, prevO, rej, fails, brs>>
 
 Line == Traces[tid][l]
 
@@ -52,6 +53,7 @@ Init == /\ tid \in 1 .. Len(Traces)
         /\ prevO = [raw |-> "", stream |-> <<>>]
         /\ rej = FALSE
         /\ fails = {}
+        /\ brs = {}
 
 StepNew ==
   /\ Line.op = "new"
@@ -139,15 +141,17 @@ StepPaths ==
      IN fails' = fails \cup { <<l, x[1], x[2]>> : x \in bad }
   /\ UNCHANGED <<R, T, rej, prevO>>
 
-Step == /\ l <= Len(Traces[tid])
+Step == /\ brs' = IF l <= Len(Traces[tid]) /\ Line.op = "add_interaction"
+                   THEN brs \cup { <<BranchOf(R, Line), Line.res>> } ELSE brs
+        /\ l <= Len(Traces[tid])
         /\ (StepNew \/ StepAdd \/ StepNode \/ StepSetAttr \/ StepObserve \/ StepBattery \/ StepDerive \/ StepParse \/ StepPaths \/ StepStats \/ StepGuard \/ StepConf)
         /\ l' = l + 1
         /\ UNCHANGED tid
 
 Done == /\ l = Len(Traces[tid]) + 1
-        /\ PrintT(<<"VERDICT", tid, Len(Traces[tid]), fails>>)
+        /\ PrintT(<<"VERDICT", tid, Len(Traces[tid]), fails, brs>>)
         /\ l' = l + 1
-        /\ UNCHANGED <<tid, R, T, prevO, rej, fails>>
+        /\ UNCHANGED <<tid, R, T, prevO, rej, fails, brs>>
 
 Next == Step \/ Done
 Spec == Init /\ [][Next]_vars
